@@ -121,8 +121,12 @@ if(CMAKE_CXX_COMPILER_ID MATCHES "(GNU|Clang)")
   set(release_flags "-Wno-unused-variable")
 
   if(NOT MSVC)
-    # These flags upset Clang when it's in MSVC mode
-    set(release_flags "${release_flags} -fno-stack-protector -ffast-math -fno-unsafe-math-optimizations")
+    # These flags upset Clang when it's in MSVC mode.  Note that we do not
+    # use -ffast-math: besides relaxing the arithmetic, it makes GCC link in
+    # crtfastmath.o, which sets the FTZ/DAZ bits at startup, so that subnormal
+    # floating-point literals in the parsed headers would be flushed to zero
+    # on their way into the generated code and the database.
+    set(release_flags "${release_flags} -fno-stack-protector")
 
     # Allow NaN to occur in the public SDK
     set(standard_flags "${release_flags} -fno-finite-math-only")
